@@ -55,6 +55,43 @@ def handle (args : List String) (impl : String) : Verdict :=
       { model := m, spec := if inU then some ok else (if emptyKey then some ok else none), inScope := inU || emptyKey,
         note := if ok then "" else if emptyKey then "class=empty-map-key" else "class=roundtrip-mismatch" }
     | none => bad "C10 rt"
+  | ["rtc", t, v, kf, ch] =>
+    -- child lists: node + children decoded into the zero value extended by the child fields
+    let kids : Option (List ChildField) :=
+      if kf == "-" then some [] else (kf.splitOn ";").mapM (fun ks => match ks.splitOn "@" with
+        | [c, kt] => do pure { ctype := ← ofHex c, ty := ← parseTy kt }
+        | _ => none)
+    match parseTy t >>= fun T => (parseVal T v).map (fun x => (T, x)), kids with
+    | some (T, x), some kfs =>
+      let tyOf := fun (ct : Bytes) => ((kfs.find? (fun k => k.ctype == ct)).orElse (fun _ => kfs.head?)).map (·.ty)
+      let chs : Option (List (Bytes × Ty × Val)) :=
+        if ch == "-" then some [] else (ch.splitOn ",").mapM (fun cs => match cs.splitOn "@" with
+          | [c, cv] => do
+            let ct ← ofHex c
+            let kt ← tyOf ct
+            pure (ct, kt, ← parseVal kt cv)
+          | _ => none)
+      match chs with
+      | some chs =>
+        let kidStr := fun (ks : List (List Val)) =>
+          " #" ++ String.join ((kfs.zip ks).map (fun (k, vs) => " " ++ toHex k.ctype ++ "=[" ++ ",".intercalate (vs.map valStr) ++ "]"))
+        let encKids : Res (List (Bytes × NodeEdge)) := mapM' (fun (c : Bytes × Ty × Val) =>
+          match encode num c.2.1 c.2.2 with | .ok ne => .ok (c.1, ne) | .err e => .err e | .panic p => .panic p) chs
+        let m := match encode num T x, encKids with
+          | .ok ne, .ok cs =>
+            let r := decodeC num T kfs ne cs (zero T) (kfs.map (fun _ => []))
+            decOut r.1 ++ kidStr r.2
+          | .panic p, _ => "PANIC " ++ p
+          | _, .panic p => "PANIC " ++ p
+          | _, _ => "encerr"
+        let inU := wf T x && chs.all (fun c => wf c.2.1 c.2.2) &&
+          (kfs.map (·.ctype)).eraseDups.length == kfs.length
+        let want := "ok " ++ valStr x ++ kidStr (kfs.map (fun k => (chs.filter (fun c => c.1 == k.ctype)).map (·.2.2)))
+        let ok := impl == want
+        { model := m, spec := if inU then some ok else none, inScope := inU,
+          note := if ok || !inU then "" else "class=child-list-mismatch" }
+      | none => bad "C10 rtc children"
+    | _, _ => bad "C10 rtc"
   | ["dec", t, v, ps, es] =>
     match parseTy t >>= fun T => (parseVal T v).map (fun x => (T, x)), parseCps ps, parseCps es with
     | some (T, x), some ps, some es =>
